@@ -1,0 +1,33 @@
+//! Verification hooks (feature `verif-hooks`, off by default).
+//!
+//! A process-global ledger of how many bytes of each segment file are known to have been
+//! fsynced by a [`Writer`](crate::write::Writer). Checks use it to decide whether an
+//! acknowledgement was issued before or after the data became durable.
+
+use std::collections::HashMap;
+use std::fs::File;
+use std::os::unix::fs::MetadataExt;
+use std::sync::Mutex;
+
+static LEDGER: Mutex<Option<HashMap<(u64, u64), u64>>> = Mutex::new(None);
+
+/// Records that `file` is durable up to `len` bytes (called right after `sync_data`).
+pub fn record_durable(file: &File, len: u64) {
+    let Ok(meta) = file.metadata() else { return };
+    let mut guard = LEDGER.lock().unwrap_or_else(|e| e.into_inner());
+    guard
+        .get_or_insert_with(HashMap::new)
+        .insert((meta.dev(), meta.ino()), len);
+}
+
+/// Durable length last recorded for the file identified by `(dev, ino)`.
+pub fn durable_len(dev: u64, ino: u64) -> Option<u64> {
+    let guard = LEDGER.lock().unwrap_or_else(|e| e.into_inner());
+    guard.as_ref().and_then(|m| m.get(&(dev, ino)).copied())
+}
+
+/// Forgets everything (between cases).
+pub fn reset() {
+    let mut guard = LEDGER.lock().unwrap_or_else(|e| e.into_inner());
+    *guard = None;
+}
